@@ -4,6 +4,8 @@ import (
 	"encoding/binary"
 	"encoding/hex"
 	"fmt"
+	"google.golang.org/protobuf/proto"
+	"sort"
 	"strings"
 	"testing"
 
@@ -579,6 +581,95 @@ func TestC08(t *testing.T) {
 				Replay: map[string]any{"kind": "validate", "raw_hex": hex.EncodeToString(q.Encode()), "options": fieldsJSON(p), "raw": false}})
 		}
 	})
+	// A quote MESSAGE lacking a TD-body field (nil, empty, or of another size) is not a quote that meets any
+	// expectation: with no option configured at all it must still be refused (the fixed-bit checks have nothing to judge)
+	gen.Prop(t, "message-with-a-missing-or-resized-field", gen.N(3000, 200000), func(t *rapid.T) {
+		s := gen.NewStream(rapid.Uint64().Draw(t, "content"), "c08m")
+		q := drawPolicyQuote(t, s)
+		binary.LittleEndian.PutUint64(q.Xfam[:], gen.XfamFixed1|(s.Uint64()&gen.XfamFixed0))
+		binary.LittleEndian.PutUint64(q.TdAttr[:], s.Uint64()&gen.TdAttrAllowed)
+		m := q.ToProto()
+		b := m.TdQuoteBody
+		fields := map[string]*[]byte{"xfam": &b.Xfam, "td_attributes": &b.TdAttributes, "tee_tcb_svn": &b.TeeTcbSvn, "mr_seam": &b.MrSeam, "mr_td": &b.MrTd, "report_data": &b.ReportData, "mr_config_id": &b.MrConfigId,
+			"mr_owner": &b.MrOwner, "mr_owner_config": &b.MrOwnerConfig, "seam_attributes": &b.SeamAttributes, "mr_signer_seam": &b.MrSignerSeam, "header.qe_vendor_id": &m.Header.QeVendorId, "header.qe_svn": &m.Header.QeSvn, "header.pce_svn": &m.Header.PceSvn}
+		names := make([]string, 0, len(fields))
+		for n := range fields {
+			names = append(names, n)
+		}
+		sort.Strings(names)
+		name := rapid.SampledFrom(names).Draw(t, "field")
+		f := fields[name]
+		how := rapid.SampledFrom([]string{"nil", "empty", "one-short", "one-long", "doubled"}).Draw(t, "how")
+		switch how {
+		case "nil":
+			*f = nil
+		case "empty":
+			*f = []byte{}
+		case "one-short":
+			*f = (*f)[:len(*f)-1]
+		case "one-long":
+			*f = append(append([]byte{}, *f...), 0)
+		default:
+			*f = append(append([]byte{}, *f...), *f...)
+		}
+		if rapid.Bool().Draw(t, "throughWire") {
+			if wb, err := proto.Marshal(m); err == nil {
+				m2 := &pb.QuoteV4{}
+				if proto.Unmarshal(wb, m2) == nil {
+					m = m2
+				}
+			}
+		}
+		// the expectation on that very field is configured with the quote's ORIGINAL value (XFAM and TD_ATTRIBUTES carry
+		// the always-on fixed-bit expectations anyway): a resized or absent field misses it
+		opts := &validate.Options{}
+		orig := q
+		switch name {
+		case "mr_seam":
+			opts.TdQuoteBodyOptions.MrSeam = append([]byte{}, orig.MrSeam[:]...)
+		case "mr_td":
+			opts.TdQuoteBodyOptions.MrTd = append([]byte{}, orig.MrTd[:]...)
+		case "report_data":
+			opts.TdQuoteBodyOptions.ReportData = append([]byte{}, orig.ReportData[:]...)
+		case "mr_config_id":
+			opts.TdQuoteBodyOptions.MrConfigID = append([]byte{}, orig.MrConfigID[:]...)
+		case "mr_owner":
+			opts.TdQuoteBodyOptions.MrOwner = append([]byte{}, orig.MrOwner[:]...)
+		case "mr_owner_config":
+			opts.TdQuoteBodyOptions.MrOwnerConfig = append([]byte{}, orig.MrOwnerConfig[:]...)
+		case "header.qe_vendor_id":
+			opts.HeaderOptions.QeVendorID = append([]byte{}, orig.VendorID[:]...)
+		case "tee_tcb_svn":
+			opts.TdQuoteBodyOptions.MinimumTeeTcbSvn = append([]byte{}, orig.TeeTcbSvn[:]...)
+		case "td_attributes":
+			opts.TdQuoteBodyOptions.TdAttributes = append([]byte{}, orig.TdAttr[:]...)
+		case "xfam":
+			if rapid.Bool().Draw(t, "pinXfam") {
+				opts.TdQuoteBodyOptions.Xfam = append([]byte{}, orig.Xfam[:]...)
+			}
+		case "header.qe_svn":
+			opts.HeaderOptions.MinimumQeSvn = binary.LittleEndian.Uint16(orig.Word10[:])
+		case "header.pce_svn":
+			opts.HeaderOptions.MinimumPceSvn = binary.LittleEndian.Uint16(orig.Word8[:])
+		default:
+			return // seam_attributes / mr_signer_seam: no expectation can be configured on them (C01 / C09 own their sizes)
+		}
+		if how == "one-long" && (name == "header.qe_svn" || name == "header.pce_svn") && (opts.HeaderOptions.MinimumQeSvn == 0 && opts.HeaderOptions.MinimumPceSvn == 0) {
+			return // a zero minimum is no expectation
+		}
+		gen.Eval()
+		v := gen.Call(func() error { return validate.TdxQuote(m, opts) })
+		gen.Class("message-field:" + how)
+		gen.NonTrivial("msg-field", name, how)
+		if v.Panicked() {
+			gen.Fail(t, gen.Violation{Key: "panic@" + gen.PanicSite(v.Stack), Oracle: "validation returns success or an error", Detail: name + " " + how + ": " + v.Panic, Replay: map[string]any{"kind": "c08-message-field", "field": name, "how": how}})
+			return
+		}
+		if v.Accepted() {
+			gen.Fail(t, gen.Violation{Key: "accepts-malformed-message:" + name, Oracle: "never accepts a quote that misses a configured expectation (here: the expectation on a field the message lacks or carries in another size)", Detail: fmt.Sprintf("quote message with %s %s, expectation on it configured with the original value: validation returned nil", name, how), Replay: map[string]any{"kind": "c08-message-field", "field": name, "how": how}})
+		}
+	})
+
 	// Exactly two expectations configured, each one met or missed on its own (at least one missed): one check's success
 	// must never cover for the other's failure. Every pair of the fourteen expectations.
 	gen.Prop(t, "two-expectations", gen.N(20000, 1500000), func(t *rapid.T) {
